@@ -35,6 +35,11 @@ _st = {}
 _n = [1000]
 
 
+def case_reset(idx):
+    # tokens are a function of the case index, so that a single case replays exactly as it ran inside its shard
+    _n[0] = 1000 + idx * 1000
+
+
 def tokv():
     _n[0] += 1
     return float(_n[0])
